@@ -87,8 +87,11 @@ def match_finding(findings, record: dict):
 class Reporter:
     """Collects violations, separates known findings, prints the contract lines."""
 
+    MAX_REPORTED = 25
+
     def __init__(self, pid: str):
         self.pid = pid
+        self.suppressed = 0
         self.findings = load_findings(pid)
         self.violations = []  # unlisted
         self.known = []
@@ -100,6 +103,11 @@ class Reporter:
             if hit["id"] not in [k["id"] for k in self.known]:
                 self.known.append(hit)
                 print(f"KNOWN-FINDING: property={self.pid} {hit['id']}: {hit['what']}", flush=True)
+            return
+        if len(self.violations) >= self.MAX_REPORTED:
+            # further violations are counted, not printed (each printed one has a replay file)
+            self.suppressed += 1
+            self.violations.append({"record": record, "replay": None})
             return
         path = write_replay(self.pid, record.get("name", "violation"), replay_doc)
         self.violations.append({"record": record, "replay": path})
